@@ -23,11 +23,11 @@ pub struct Table {
 
 impl Table {
     pub fn new(vars: Vec<VarId>, tuples: Vec<Vec<Val>>) -> Self {
-        // Validate that all tuples have the same arity as variables
-        debug_assert!(
-            tuples.iter().all(|tuple| tuple.len() == vars.len()),
-            "All tuples must have the same arity as the number of variables"
-        );
+        // A tuple whose arity differs from the number of variables can never match an assignment:
+        // keep only well-formed tuples (the propagator indexes `tuple[i]` for every variable).
+        // `Model::table` records a validation error for such input.
+        let arity = vars.len();
+        let tuples = tuples.into_iter().filter(|tuple| tuple.len() == arity).collect();
         
         Self { vars, tuples }
     }
